@@ -230,7 +230,7 @@ def generate(path, mod, isa_path, ea_field="f_StepInfo_EA"):
     files["C07_%s_sep" % mod] = shard_hdr + STEP_REPSEP % {"kind": "sep"}
     lemmas += ["step_rep", "step_sep"]
     # ---- 5. per opcode
-    out = [shard_hdr, "From Run Require Import %s.\n" % " ".join(sorted(n for n in files if not n.endswith("_base")))]
+    out = [shard_hdr, "From Run Require Import %s.\nFrom Model Require Import Emitter.\nFrom Props Require Import CoupleProps.\n" % " ".join(sorted(n for n in files if not n.endswith("_base")))]
     rows = []
     proved, unproved = [], []
     for op in straight:
@@ -257,7 +257,8 @@ def generate(path, mod, isa_path, ea_field="f_StepInfo_EA"):
     lines.append("Qed.\n")
     out.append("\n".join(lines))
     out.append(LEN_AGREES % {"mod": mod})
-    out.append("Print Assumptions C07_contract_%s.\nPrint Assumptions C07_len_%s.\n" % (mod, mod))
+    out.append(INSTANCE % {"mod": mod})
+    out.append("Print Assumptions C07_contract_%s.\nPrint Assumptions C07_len_%s.\nPrint Assumptions C07_%s.\n" % (mod, mod, mod))
     files["C07_%s" % mod] = "\n".join(out)
     return files, {"lemmas": lemmas, "straight": straight, "proved": proved, "unproved": unproved, "skipped": skipped,
                    "needed": sorted(needed), "modes": modes}
@@ -450,9 +451,7 @@ CONTRACT = """(* ---- the contract of one opcode *)
 (* length by which this model's Step advances PC *)
 Definition cpu_len (op m x : Z) : Z :=
   if tbl_mode op =? 6 then sub16 (tbl_size op) m else if tbl_mode op =? 7 then sub16 (tbl_size op) x else tbl_size op.
-(* M / X after the instruction; o = the byte after the opcode *)
-Definition new_m (op m o : Z) : Z := if op =? 194 then rep_val m o 5 else if op =? 226 then sep_val m o 5 else m.
-Definition new_x (op x o : Z) : Z := if op =? 194 then rep_val x o 4 else if op =? 226 then sep_val x o 4 else x.
+(* M / X after the instruction (o = the byte after the opcode): CoupleProps.new_m / new_x *)
 
 Definition contract_at (op : Z) : Prop := forall pc rk m x s, bitp m -> bitp x ->
   Inv (BT (eq pc) TT rk m x TT) s -> mem s (w_or (shl32 rk 16) pc) mod 256 = op ->
@@ -492,4 +491,95 @@ LEN_AGREES = """(* the length by which the model advances PC is the architectura
 Lemma C07_len_%(mod)s : forallb (fun op => forallb (fun mx : Z * Z => cpu_len op (fst mx) (snd mx) =? ISA.op_length op (fst mx =? 1) (snd mx =? 1))
                                  [(0,0); (0,1); (1,0); (1,1)]) proved_ops = true.
 Proof. vm_compute. reflexivity. Qed.
+"""
+
+INSTANCE = """(* ---- every straight-line opcode of Spec/ISA.v is covered *)
+Definition memZ (v : Z) (l : list Z) : bool := existsb (Z.eqb v) l.
+Lemma straight_covered_b : forallb (fun op => implb (straight op) (memZ op proved_ops)) (upto 256) = true.
+Proof. vm_compute. reflexivity. Qed.
+Lemma straight_covered : forall op, straight op = true -> In op proved_ops.
+Proof.
+  intros op H. assert (Hr : rng 8 op).
+  { unfold straight in H. apply andb_true_iff in H. destruct H as [H _]. apply andb_true_iff in H. destruct H as [H1 H2].
+    apply Z.leb_le in H1. apply Z.ltb_lt in H2. unfold rng. change (2 ^ 8) with 256. lia. }
+  pose proof (all_bytes_b _ straight_covered_b op Hr) as Hc. cbv beta in Hc. rewrite H in Hc. cbn [implb] in Hc.
+  unfold memZ in Hc. apply existsb_exists in Hc. destruct Hc as [y [Hin Hy]]. apply Z.eqb_eq in Hy. subst y. exact Hin.
+Qed.
+
+(* ---- this model as an instance of the abstract CPU of Props/CoupleProps.v *)
+Definition c_step (s : st) : option st := match Step s with Ok _ s' => Some s' | Panic => None end.
+(* native mode, no interrupt pending, every status flag 0 or 1, every field within its Go type *)
+Definition c_ok (s : st) : Prop := exists pc rk m x, bitp m /\\ bitp x /\\ Inv (BT (eq pc) TT rk m x TT) s.
+Definition c_pc (s : st) : Z := get f_PC s.
+Definition c_rk (s : st) : Z := get f_RK s.
+Definition c_m (s : st) : Z := get f_M s.
+Definition c_x (s : st) : Z := get f_X s.
+
+Lemma c_ok_vals : forall s pc rk m x, Inv (BT (eq pc) TT rk m x TT) s ->
+  pc = c_pc s /\\ rk = c_rk s /\\ m = c_m s /\\ x = c_x s /\\ rng 16 (c_pc s) /\\ rng 8 (c_rk s).
+Proof.
+  intros s pc rk m x Hi. unfold c_pc, c_rk, c_m, c_x.
+  let p := layer_pf Hi f_PC s in pose proof p as H1.
+  let p := layer_pf Hi f_RK s in pose proof p as H2.
+  let p := layer_pf Hi f_M s in pose proof p as H3.
+  let p := layer_pf Hi f_X s in pose proof p as H4.
+  cbv beta in *. split; [exact H1|]. split; [exact H2|]. split; [exact H3|]. split; [exact H4|]. split; solve_rng.
+Qed.
+
+Lemma c_ranges : ok_ranges st c_ok c_pc c_rk c_m c_x.
+Proof.
+  intros s [pc [rk [m [x [Hbm [Hbx Hi]]]]]]. destruct (c_ok_vals s pc rk m x Hi) as [E1 [E2 [E3 [E4 [R1 R2]]]]].
+  unfold rng in R1, R2. change (2 ^ 16) with 65536 in R1. change (2 ^ 8) with 256 in R2.
+  rewrite <- E3, <- E4. repeat split; try lia; assumption.
+Qed.
+
+Lemma c_len_eq : forall op m x, In op proved_ops -> bitp m -> bitp x -> cpu_len op m x = ISA.op_length op (m =? 1) (x =? 1).
+Proof.
+  intros op m x Hin Hm Hx. pose proof C07_len_%(mod)s as H. rewrite forallb_forall in H. specialize (H op Hin).
+  rewrite forallb_forall in H.
+  assert (Hmx : In (m, x) [(0,0); (0,1); (1,0); (1,1)]).
+  { destruct Hm as [-> | ->]; destruct Hx as [-> | ->]; cbn; auto. }
+  specialize (H (m, x) Hmx). cbn [fst snd] in H. apply Z.eqb_eq in H. exact H.
+Qed.
+
+Theorem c_contract : len_contract st c_step c_ok c_pc c_rk c_m c_x mem wrote.
+Proof.
+  intros s op [pc [rk [m [x [Hbm [Hbx Hi]]]]]] Hstr Hfetch.
+  destruct (c_ok_vals s pc rk m x Hi) as [E1 [E2 [E3 [E4 [R1 R2]]]]].
+  pose proof (straight_covered op Hstr) as Hin.
+  assert (R1' : 0 <= c_pc s < 65536) by (unfold rng in R1; change (2 ^ 16) with 65536 in R1; exact R1).
+  assert (R2' : 0 <= c_rk s < 256) by (unfold rng in R2; change (2 ^ 8) with 256 in R2; exact R2).
+  assert (Hf : mem s (w_or (shl32 rk 16) pc) mod 256 = op).
+  { rewrite E1, E2. rewrite lor_shl16 by assumption. exact Hfetch. }
+  pose proof (C07_contract_%(mod)s op Hin pc rk m x s Hbm Hbx Hi Hf) as Hc.
+  unfold c_step. destruct (Step s) as [r s'|]; cbn [safe] in Hc; [|contradiction].
+  destruct Hc as [Hi' Hfr]. exists s'. split; [reflexivity|].
+  assert (Eo : mem s (w_or (shl32 rk 16) (add16 pc 1)) mod 256 = operand st c_pc c_rk mem s).
+  { unfold operand, addr24, add16. rewrite E1, E2. rewrite lor_shl16; [reflexivity | assumption | apply Z.mod_pos_bound; lia]. }
+  rewrite Eo in Hi'.
+  destruct (c_ok_vals s' _ _ _ _ Hi') as [F1 [F2 [F3 [F4 _]]]].
+  split.
+  { eexists _, _, _, _. split; [|split; [|exact Hi']].
+    - unfold new_m. destruct (op =? 194); [apply bitp_rep_val; exact Hbm|]. destruct (op =? 226); [apply bitp_sep_val; exact Hbm | exact Hbm].
+    - unfold new_x. destruct (op =? 194); [apply bitp_rep_val; exact Hbx|]. destruct (op =? 226); [apply bitp_sep_val; exact Hbx | exact Hbx]. }
+  split; [rewrite <- F2, <- E2; reflexivity|].
+  split; [rewrite <- F1, <- E1, <- E3, <- E4; unfold add16; rewrite (c_len_eq op m x Hin Hbm Hbx); reflexivity|].
+  split; [rewrite <- F3, <- E3; reflexivity|].
+  split; [rewrite <- F4, <- E4; reflexivity|].
+  intro a. apply Frame_mem. exact Hfr.
+Qed.
+
+(* C07 for this interpreter: Props/CoupleProps.C07_couple with the abstract CPU instantiated *)
+Theorem C07_%(mod)s : forall ops e0 b s0,
+  straightline ops e0 -> buf e0 = Some b -> 0 <= n e0 <= ZList.zlen b ->
+  let ef := fst (run ops e0) in
+  let bank := address e0 / 65536 in
+  0 <= address e0 < 16777216 ->
+  address e0 + (n ef - n e0) <= (bank + 1) * 65536 ->
+  (forall i, 0 <= i < n ef - n e0 -> mem s0 (address e0 + i) = ZList.znth (Bytes ef) (n e0 + i)) ->
+  c_ok s0 -> addr24 (c_rk s0) (c_pc s0) = address e0 -> c_m s0 = mbit e0 -> c_x s0 = xbit e0 ->
+  nowrite st c_step wrote (List.length (starts ops e0)) s0 (address e0) (address e0 + (n ef - n e0)) ->
+  exists sf, fetches st c_step c_pc c_rk (List.length (starts ops e0)) s0 = Some (starts ops e0, sf) /\\
+             c_m sf = mbit ef /\\ c_x sf = xbit ef /\\ c_pc sf = address ef mod 65536 /\\ c_rk sf = bank.
+Proof. exact (C07_couple st c_step c_ok c_pc c_rk c_m c_x mem wrote c_ranges c_contract). Qed.
 """
